@@ -479,6 +479,11 @@ def write_evidence(pid, tier, seed, t0, prop, broken, stats, nviol):
         'coqchk': {k: v for k, v in pr.get('coqchk', {}).items() if k != 'tail'} or 'not run in this tier',
         'exhaustive': False,
     }
+    try:
+        if prop is not None and hasattr(prop, 'evidence_extra'):
+            cov.update(prop.evidence_extra(stats, tier) or {})
+    except Exception:
+        pass
     ev = {'property_id': pid, 'tier': tier, 'seed': seed, 'level': 'proof', 'coverage': cov,
           'assumptions': list(getattr(prop, 'ASSUMPTIONS', [])) if prop else [],
           'wall_s': round(time.time() - t0, 2), 'violations': nviol}
